@@ -13,7 +13,7 @@ hand_modelled = ['coq/Sem/InvModel.v: InvariantedClass (__setattr__, __getattrib
 explanation = ('Theorems on the invariant state machine over all histories; correspondence: real deal.inv classes vs the model on random classes x invariant '
                'stacks x histories; independent monitor evaluating the invariants on vars(obj) + class attributes after every step.')
 RULE = ('classes with 2-3 integer attributes (some only class-level), 1-3 stacked invariants in explicit or `_` form over them, histories of <= 10 operations '
-        '(assign, method with 0-3 internal assignments that returns or raises, static/class method, disable/enable), optionally through a subclass (plain, or decorated with invariants of its own on top of the inherited ones); '
+        '(assign, method with 0-3 internal assignments that returns or raises, method with stores behind __setattr__ and nested calls through self, static/class method, disable/enable), optionally through a subclass (plain, or decorated with invariants of its own on top of the inherited ones); '
         'non-trivial = at least one operation violates an invariant or is rejected at entry')
 ATTRS = ['x', 'y', 'z']
 
@@ -43,6 +43,15 @@ def gen_case(rnd):
         elif r < .75:
             sets = [[rnd.choice(names), rnd.randint(-3, 11)] for _ in range(rnd.randint(0, 3))]
             hist.append(['call', sets, rnd.random() < .2, rnd.randint(0, 9)] + ([rnd.choice(['patch', 'validate', 'deal', 'd', 'id', 'items', 'update', 'c_raises', 'c_has', 'c_pre', 'c_raises', 'c_has', 'c_pre'])] if rnd.random() < .45 else []))
+        elif r < .83:
+            # a method whose body also changes the state behind __setattr__ (in-place change, write to __dict__) and calls another
+            # method through self (which does the same)
+            def item():
+                q = rnd.random()
+                if q < .35: return ['set', rnd.choice(names), rnd.randint(-3, 11)]
+                if q < .65: return ['raw', rnd.choice(names), rnd.randint(-3, 11)]
+                return ['inner', [[rnd.random() < .6, rnd.choice(names), rnd.randint(-3, 11)] for _ in range(rnd.randint(0, 2))], rnd.random() < .1]
+            hist.append(['callb', [item() for _ in range(rnd.randint(1, 4))], rnd.random() < .15, rnd.randint(0, 9)])
         elif r < .9: hist.append(['static', rnd.randint(0, 9)])
         else: hist.append(['switch', rnd.random() < .5])
     sub = rnd.random() < .3
@@ -65,6 +74,12 @@ def coq_case(c):
     def op(o):
         if o[0] == 'set': return f'(OSet {q(o[1])} {zv(o[2])})'
         if o[0] == 'call': return '(OCall [' + '; '.join(f'({q(n)}, {zv(v)})' for n, v in o[1]) + f'] {"true" if o[2] else "false"} ({o[3]}))'
+        if o[0] == 'callb':
+            def bi(it):
+                if it[0] == 'set': return f'(BSet {q(it[1])} {zv(it[2])})'
+                if it[0] == 'raw': return f'(BRaw {q(it[1])} {zv(it[2])})'
+                return '(BInner [' + '; '.join(f'({"true" if r else "false"}, ({q(n)}, {zv(v)}))' for r, n, v in it[1]) + f'] {"true" if it[2] else "false"})'
+            return '(OCallB [' + '; '.join(bi(it) for it in o[1]) + f'] {"true" if o[2] else "false"} ({o[3]}))'
         if o[0] == 'static': return f'(OStatic ({o[1]}))' if o[1] % 2 else f'(OCall [] false ({o[1]}))'   # even: a classmethod called through the instance (it is a bound method: validated)
         return f'(OSwitch {"true" if o[1] else "false"})'
     hist = '[' + '; '.join(op(o) for o in c['history']) + ']'
@@ -83,6 +98,28 @@ def inv_holds(c, attrs):
             unknown = True; continue      # this one cannot be evaluated (an attribute it reads does not exist); the others still count
         if not ok: return False
     return None if unknown else True
+
+
+def nested_failure(c, attrs, body):
+    """independent walk through the body of a `callb` method from the instance state `attrs`: does some call made through self find an
+    invariant false when it is entered, or leave one false when it returns? (None: the walk ends earlier for another reason)"""
+    cur = dict(attrs)
+    for it in body:
+        if it[0] == 'set':
+            cur[it[1]] = it[2]
+            if inv_holds(c, cur) is not True: return None      # the assignment itself is judged
+        elif it[0] == 'raw':
+            cur[it[1]] = it[2]
+        else:
+            if inv_holds(c, cur) is False: return f'the nested call {it} is entered with an invariant false: {cur}'
+            if inv_holds(c, cur) is None: return None
+            for raw, n, v in it[1]:
+                cur[n] = v
+                if not raw and inv_holds(c, cur) is not True: return None
+            if it[2]: return None
+            if inv_holds(c, cur) is False: return f'the nested call {it} returns with an invariant false: {cur}'
+            if inv_holds(c, cur) is None: return None
+    return None
 
 
 def parse_attrs(s):
@@ -118,12 +155,20 @@ def monitor(c, r):
         if (res.startswith('exc KeyError') or res.startswith('exc AttributeError')) and \
                 not all(a in (set(c['cls_attrs']) | set(attrs)) for i in c['invs'] for a in i['pred'][1:-1]):
             prev = attrs; continue      # an attribute some invariant reads exists nowhere yet (assigned lazily): the validator's own error
-        if enabled and o[0] in ('set', 'call') and res.startswith('ok') and holds is False:
+        if enabled and o[0] == 'callb' and res.startswith('ok') and prev is not None and inv_holds(c, prev) is True:
+            nf = nested_failure(c, prev, o[1])
+            if nf:
+                out.append((f'{o} completed although {nf}', None)); break
+        if enabled and o[0] in ('set', 'call', 'callb') and res.startswith('ok') and holds is False:
             out.append((f'{o} completed without a violation error but leaves an invariant false: {attrs}', None)); break
-        if enabled and o[0] in ('set', 'call') and holds is False and prev is not None and attrs != prev and res != 'InvContractError' \
+        if enabled and o[0] in ('set', 'call', 'callb') and holds is False and prev is not None and attrs != prev and res != 'InvContractError' \
                 and not res.startswith('ok') and not res.startswith('exc KeyError') and not res.startswith('exc AttributeError'):
-            out.append((f'{o} leaves an invariant false ({attrs}) but raised {res!r}, not the invariant-violation error', None)); break
-        if enabled and o[0] == 'call' and prev is not None and inv_holds(c, prev) is False and attrs != prev:
+            # C05-F2: a method that raises its own exception is not validated on the way out; with stores that __setattr__ does not see
+            # the broken state escapes under the method's exception
+            own_raise = o[0] == 'callb' and res == 'exc ValueError' and (o[2] or any(it[0] == 'inner' and it[2] for it in o[1])) and \
+                any(it[0] == 'raw' or (it[0] == 'inner' and any(r for r, _, _ in it[1])) for it in o[1])
+            out.append((f'{o} leaves an invariant false ({attrs}) but raised {res!r}, not the invariant-violation error', 'unseen_store_then_own_exception' if own_raise else None)); break
+        if enabled and o[0] in ('call', 'callb') and prev is not None and inv_holds(c, prev) is False and attrs != prev:
             out.append((f'method entered although an invariant was already false: state {prev} -> {attrs}', None)); break
         if not enabled and res == 'InvContractError':
             out.append((f'invariants evaluated while contracts are disabled on {o}', None)); break
